@@ -105,6 +105,28 @@ impl Table for Mcfg {
     fn walk(&self, img: &[u8]) -> Result<Vec<Ent>, String> {
         fixed_walk(img, 44, 16)
     }
+    /// chains whose arguments are related to the previous operation's: a window that continues the previous one
+    /// (next bus, base advanced by the bus count << 20), the same window again, an overlapping one, another segment
+    fn sweeps(&self, _level: u8) -> Vec<(String, Vec<Op>)> {
+        let e = |base: u64, _seg: u64, sb: u64, eb: u64| Op { k: 0, shape: 0, fill: crate::fill::Fill::b(0).with(0, base).with(2, sb).with(3, eb) };
+        let mut v = vec![];
+        for (b0, s0, e0) in [(0xc000_0000u64, 0u64, 0x1fu64), (0x30_0000_0000, 0, 0x7f), (0xe000_0000, 0x10, 0x10), (0, 0, 0)] {
+            let n = e0 - s0 + 1;
+            let next = (b0 + (n << 20), e0 + 1, (e0 + n).min(255));
+            let n2 = next.2 - next.1 + 1;
+            let third = (next.0 + (n2 << 20), next.2 + 1, 255u64);
+            let first = e(b0, 0, s0, e0);
+            v.push((format!("contiguous[{:#x}]", b0), vec![first, e(next.0, 0, next.1, next.2), e(third.0, 0, third.1.min(255), third.2), e(b0, 0, s0, e0)]));
+            v.push((format!("same-window-twice[{:#x}]", b0), vec![first, first, first]));
+            v.push((format!("overlap[{:#x}]", b0), vec![first, e(b0, 0, s0, (e0 + 1).min(255)), e(b0 + (1 << 20), 0, s0 + 1, e0)]));
+            v.push((format!("descending[{:#x}]", b0), vec![e(next.0, 0, next.1, next.2), first]));
+            v.push((format!("interleaved[{:#x}]", b0), vec![first, e(0x8000_0000, 0, 0, 0xff), e(next.0, 0, next.1, next.2)]));
+        }
+        // the 4-override limit: segment travels in the base pattern; other-segment continuation uses base fill 1 (segment 0xffff)
+        let f1 = |base: u64, sb: u64, eb: u64| Op { k: 0, shape: 0, fill: crate::fill::Fill::b(1).with(0, base).with(2, sb).with(3, eb) };
+        v.push(("contiguous-other-segment".into(), vec![f1(0xc000_0000, 0, 0x1f), f1(0xc200_0000, 0x20, 0x3f), e(0xc400_0000, 0, 0x40, 0x5f)]));
+        v
+    }
     fn fields(&self, _k: u8, _s: u16) -> Vec<FT> {
         vec![FT::U(64), FT::U(16), FT::U(8), FT::U(8)]
     }
